@@ -12,6 +12,7 @@ import (
 	_ "go.nanomsg.org/mangos/v3/transport/tlstcp"
 	_ "go.nanomsg.org/mangos/v3/transport/ws"
 	_ "go.nanomsg.org/mangos/v3/transport/wss"
+	"go.nanomsg.org/mangos/v3/vh/c11"
 	"go.nanomsg.org/mangos/v3/vh/kinds"
 	"go.nanomsg.org/mangos/v3/vh/kit"
 	"go.nanomsg.org/mangos/v3/vh/vnet"
@@ -29,6 +30,10 @@ func init() {
 		return []*vexplore.Scenario{
 			{Name: fmt.Sprintf("error-then-followups-x%d", depth), Mode: "hist", Reset: kit.ResetGlobals, Body: func() { errorThen(depth) },
 				NeedCounters: []string{"error-provoked", "followup-completed", "listener-still-accepts", "dialer-still-redials", "listen-retried", "dial-retried"}},
+			// two calls at once on a listener, a dialer and their socket - among them calls that fail
+			// (unknown options, a second Listen / Dial, calls on closed objects): whatever order the
+			// locks are taken in, every call returns and the socket stays usable
+			{Name: "two-calls-at-once-on-endpoints-and-socket", Mode: "sched", Bound: depth, Reset: kit.ResetGlobals, Body: c11.TwoThreadsEndpoints},
 			{Name: "transport-config-errors", Mode: "hist", Reset: kit.ResetGlobals, Body: transportErrors,
 				NeedCounters: []string{"tls-no-config", "followup-completed"}},
 		}
